@@ -369,6 +369,19 @@ class Rig:
         shutil.rmtree(self.dir, ignore_errors=True)
 
 
+def reboot_data(rig):
+    """the next boot: a fresh real DataManager on the same path (real _load / FileManager.load / YamlInterface.load);
+    its writer thread finds shutdown already requested and leaves at once"""
+    import mpf.core.data_manager as dmmod
+    st = Stopper()
+    st.flag = True
+    machine = SimpleNamespace(
+        config={"logging": {"console": {"data_manager": "none"}, "file": {"data_manager": "none"}},
+                "mpf": {"paths": {"vars": rig.path}}},
+        machine_path=rig.dir, thread_stopper=st, options={"production": False})
+    return dmmod.DataManager(machine, "vars", min_wait_secs=0).get_data()
+
+
 # ----------------------------------------------------------------------------------------------- generator
 def gen_ops(r):
     ops = []
@@ -384,7 +397,7 @@ def gen_ops(r):
         elif k < 0.25 and faults:
             ops.append(["crash", r.random() < 0.6])
             break
-        elif k < 0.40 and faults:
+        elif k < 0.45 and faults:
             ops.append(["fail", r.random() < 0.5])
         else:
             ops.append(["step"])
@@ -417,6 +430,8 @@ def run_case(ops, model=None, initial_file=True, tails=True):
             out["played"].append(op)
             if op[0] == "save":
                 last_saved = op[1]
+                if stopped:
+                    out["save_after_stop"] = True
             elif op[0] == "shutdown":
                 stopped = True
             elif op[0] in ("fail", "crash"):
@@ -433,7 +448,8 @@ def run_case(ops, model=None, initial_file=True, tails=True):
             if mline is not None and op[0] != "crash":
                 out["cmp"].append((op, line, mline))
             elif mline is not None:
-                out["cmp"].append((op, line.split(" ")[1], mline.split(" ")[1]))   # after a crash only the file matters
+                il, ml = line.split(" "), mline.split(" ")   # after a crash only the file matters
+                out["cmp"].append((op, il[1] if len(il) > 1 else line, ml[1] if len(ml) > 1 else mline))
 
         for op in ops:
             if rig.over:
@@ -459,8 +475,18 @@ def run_case(ops, model=None, initial_file=True, tails=True):
                 out["verdicts"].append(("thread-does-not-exit", {"thread_at": rig.sched.at, "exc": rig.sched.exc}))
             elif not injected or wedge_tail:
                 want = ("value", last_saved) if (last_saved or initial_file) else ("absent",)
-                if d != want and not rig.dirty.ev.is_set():
+                if d != want and not out.get("save_after_stop"):
                     out["verdicts"].append(("not-flushed-on-shutdown", {"last_saved": last_saved, "disk": d}))
+                elif not out.get("save_after_stop"):
+                    back = reboot_data(rig)
+                    if back != (rig.values.get(last_saved) or {}):
+                        out["verdicts"].append(("reboot-loads-different-data", {"last_saved": last_saved,
+                                                                                "loaded": repr(back)[:200]}))
+        if rig.over:
+            # after a crash the next boot must load the start-up content or one complete saved value
+            back = reboot_data(rig)
+            if not any(back == (p or {}) for p in rig.values.values()):
+                out["verdicts"].append(("reboot-after-crash-loads-torn-data", {"loaded": repr(back)[:200]}))
         return out
     finally:
         rig.close()
@@ -486,6 +512,171 @@ def one_case(ctx, model, ops, initial_file=True, tag=None):
             break
 
 
+# ----------------------------------------------------------------------------------------------- machine variables
+class CapDM:
+    """stands in for the data manager between MachineVariables and the file: keeps what save_all was given"""
+
+    def __init__(self, data=None):
+        self.data = data or {}
+        self.writes = 0
+
+    def save_all(self, data):
+        self.data = data
+        self.writes += 1
+
+    def get_data(self, section=None):
+        return real_copy.copy(self.data)
+
+
+class MvRig:
+    def __init__(self):
+        install()
+        self.now = 0
+        self.dir = tempfile.mkdtemp(prefix="mv-", dir=util.private_tmp())
+        self.dm = CapDM()
+        self.mv = self._new(self.dm, 0)
+
+    def _new(self, dm, t):
+        from mpf.core.machine_vars import MachineVariables
+        rig = self
+        clock = SimpleNamespace(get_datetime=lambda: SimpleNamespace(timestamp=lambda: float(rig.now)))
+        machine = SimpleNamespace(
+            config={"logging": {"console": {"machine_vars": "none"}, "file": {"machine_vars": "none"}},
+                    "mpf": {"save_machine_vars_to_disk": True}},
+            clock=clock, events=SimpleNamespace(post=lambda *a, **k: None), monitors={"machine_vars": []},
+            options={"production": False})
+        mv = MachineVariables(machine)
+        mv.load_machine_vars(dm, float(t))
+        return mv
+
+    def observe(self):
+        def oi(v):
+            return "N" if v is None else str(int(v))
+        vs = ["%s=%s:%d:%d:%s" % (n[1:], oi(v["value"]), 1 if v["persist"] else 0, v["expire_secs"] or 0, oi(v["timeout"]))
+              for n, v in self.mv.machine_vars.items() if n[0] == "v" and n[1:].isdigit()]
+        fl = ["%s=%s:%s" % (n[1:], oi(e["value"]), oi(e["expire"])) for n, e in self.dm.data.items()]
+        return "vars" + "".join(" " + x for x in vs) + " file" + "".join(" " + x for x in fl)
+
+    def apply(self, op, verdicts):
+        k = op[0]
+        w0 = self.dm.writes
+        if k == "cfg":
+            self.now = op[1]
+            self.mv.configure_machine_var("v%d" % op[2], bool(op[3]), op[4] or None)
+        elif k == "set":
+            self.now = op[1]
+            self.mv.set_machine_var("v%d" % op[2], op[3], bool(op[4]))
+        elif k == "rm":
+            self.mv.remove_machine_var("v%d" % op[1])
+        elif k == "boot":
+            from mpf.core.file_manager import FileManager
+            path = os.path.join(self.dir, "machine_vars.yaml")
+            FileManager.save(path, self.dm.data)
+            data = FileManager.load(path, halt_on_error=False)
+            if data != self.dm.data:
+                verdicts.append(("machine-vars-yaml-roundtrip", {"written": repr(self.dm.data)[:200], "read": repr(data)[:200]}))
+            before = {n: dict(e) for n, e in data.items()}
+            self.now = op[1]
+            self.dm = CapDM(data)
+            self.mv = self._new(self.dm, op[1])
+            for n, e in before.items():
+                gone = bool(e.get("expire")) and e["expire"] < op[1]
+                have = self.mv.is_machine_var(n)
+                if gone == have or (have and (self.mv.get_machine_var(n) != e["value"]
+                                              or type(self.mv.get_machine_var(n)) is not type(e["value"]))):
+                    verdicts.append(("machine-var-not-reloaded", {"name": n, "entry": e, "boot_time": op[1],
+                                                                  "present": have, "value": self.mv.get_machine_var(n)}))
+            extra = [n for n in self.mv.machine_vars if n[0] == "v" and n[1:].isdigit() and n not in before]
+            if extra:
+                verdicts.append(("machine-var-not-reloaded", {"unexpected": extra}))
+        if self.dm.writes > w0:
+            want = {n: v["value"] for n, v in self.mv.machine_vars.items() if v["persist"]}
+            got = {n: e["value"] for n, e in self.dm.data.items()}
+            if want != got:
+                verdicts.append(("machine-vars-file-not-persisted-subset", {"want": want, "got": got, "after": op}))
+        return self.observe()
+
+    def close(self):
+        import shutil
+        shutil.rmtree(self.dir, ignore_errors=True)
+
+
+def gen_mv_ops(r):
+    ops = []
+    now = 100
+    for _ in range(r.randint(4, 16)):
+        now += r.choice([0, 1, 5, 10, 50])
+        k = r.random()
+        n = r.randint(1, 4)
+        if k < 0.2:
+            ops.append(["cfg", now, n, r.random() < 0.7, r.choice([0, 0, 10, 100])])
+        elif k < 0.75:
+            ops.append(["set", now, n, r.choice([None, 0, 1, 5, 5, -3, r.randint(-1000, 1000)]), r.random() < 0.5])
+        elif k < 0.8:
+            ops.append(["rm", n])
+        else:
+            now += r.choice([0, 5, 10, 11, 100, 101, 1000])
+            ops.append(["boot", now])
+    now += r.choice([0, 9, 10, 11, 100, 101])
+    ops.append(["boot", now])
+    return ops
+
+
+def mv_line(op):
+    def oi(v):
+        return "N" if v is None else str(v)
+    if op[0] == "cfg":
+        return "cfg %d %d %d %d" % (op[1], op[2], 1 if op[3] else 0, op[4])
+    if op[0] == "set":
+        return "set %d %d %s %d" % (op[1], op[2], oi(op[3]), 1 if op[4] else 0)
+    if op[0] == "rm":
+        return "rm %d" % op[1]
+    return "boot %d" % op[1]
+
+
+def mv_canon(line):
+    """machine_vars is a dict and the YAML dump sorts its keys: order carries no meaning"""
+    if not line.startswith("vars"):
+        return line
+    a, b = line[4:].split(" file", 1)
+    key = lambda tok: int(tok.split("=")[0])
+    return "vars " + " ".join(sorted(a.split(), key=key)) + " file " + " ".join(sorted(b.split(), key=key))
+
+
+def mv_run(ops, model=None):
+    rig = MvRig()
+    verdicts, cmp_ = [], []
+    try:
+        if model is not None:
+            model.ask("mvreset")
+        for op in ops:
+            try:
+                line = rig.apply(op, verdicts)
+            except Exception as e:
+                verdicts.append(("machine-vars-crash", {"after": op, "error": repr(e)}))
+                break
+            if model is not None:
+                cmp_.append((op, mv_canon(line), mv_canon(model.ask(mv_line(op)))))
+        return verdicts, cmp_
+    finally:
+        rig.close()
+
+
+def mv_case(ctx, model, ops):
+    case = {"kind": "machine-vars", "ops": ops}
+    ctx.evaluated(case, any(o[0] == "boot" for o in ops[:-1]) or any(o[0] == "cfg" and o[4] for o in ops))
+    for o in ops:
+        ctx.count("mv_" + o[0])
+    verdicts, cmp_ = mv_run(ops, model)
+    if verdicts:
+        sig = verdicts[0][0]
+        small = ddmin(ops, lambda o: any(s == sig for s, _ in mv_run(o)[0]), max_tests=80)
+        ctx.fail(sig, dict(case, shrunk=small), verdicts[0][1])
+    for op, impl, mdl in cmp_:
+        if not ctx.compare(dict(case, what="after %r" % (op,)), impl, mdl):
+            break
+
+
 SHRUNK = set()
 D9_HISTORY = [["save", 1]] + [["step"]] * 7 + [["save", 2]] + [["step"]] * 7 + [["save", 3], ["shutdown"]]
 D8_HISTORY = [["save", 1], ["step"], ["step"], ["step"], ["step"], ["step"], ["fail", False], ["step"], ["save", 2]]
@@ -499,9 +690,13 @@ def run(ctx):
         one_case(ctx, model, D8_HISTORY)
         one_case(ctx, model, [["save", 1]] + [["step"]] * 5 + [["crash", True]])
         one_case(ctx, model, [["save", 1]] + [["step"]] * 6 + [["crash", False]])
-        for i in range(ctx.n(500, 8000)):
+        for i in range(ctx.n(1200, 12000)):
             r = ctx.rng("il", i)
             one_case(ctx, model, gen_ops(r), initial_file=r.random() < 0.8)
+        mv_case(ctx, model, [["cfg", 100, 1, True, 3600], ["set", 100, 1, 5, False], ["set", 100, 2, 9, False],
+                             ["boot", 3700], ["boot", 3701]])
+        for i in range(ctx.n(400, 6000)):
+            mv_case(ctx, model, gen_mv_ops(ctx.rng("mv", i)))
     finally:
         if model is not None:
             model.close()
@@ -509,6 +704,11 @@ def run(ctx):
 
 def replay(ctx, rep):
     case = rep["case"]
+    if case["kind"] == "machine-vars":
+        verdicts, _ = mv_run(case.get("shrunk") or case["ops"])
+        for sig, detail in verdicts[:1]:
+            ctx.fail(sig, case, detail)
+        return
     out = run_case(case.get("shrunk") or case["ops"], None, case.get("initial_file", True))
     if not out["verdicts"]:
         out = run_case(case["ops"], None, case.get("initial_file", True))
